@@ -416,25 +416,28 @@ void h3(void) { pt_reset(); Core* s; return_unit(s); VF_CANARY("end"); }
     b_impl = find_body(repo, F_PT, r'void\s+Impl\s*\(\s*InlineCore\s*&\s*caller\s*\)\s*noexcept', 'PromiseType::Impl', within=WP)
     b_here = find_body(repo, F_PT, r'InlineCore\s*\*\s*Here\s*\(\s*InlineCore\s*&\s*caller\s*\)\s*noexcept\s+final', 'PromiseType::Here', within=WP)
     ci = Rewriter('PromiseType::Impl', pre=[(r'this->_executor\s*=\s*std::move\(\s*DownCast<BaseCore>\(caller\)\._executor\s*\)\s*;', '{ self->_executor = caller->_executor; caller->_executor = 0; }', 0)], refs=['caller']).rewrite(b_impl.text)
-    ch = Rewriter('PromiseType::Here', methods=['Impl', 'Call'], refs=['caller']).rewrite(b_here.text)
+    ch = Rewriter('PromiseType::Here', methods=['Impl', 'Call'], refs=['caller'], pre=ppre).rewrite(b_here.text)      # Call() may be written out (Curr().resume())
     src = PT + '''void Impl(Core* self, Core* caller)
 __CPROVER_requires(__CPROVER_is_fresh(self, sizeof(*self)) && __CPROVER_is_fresh(caller, sizeof(*caller)) && caller->_executor != 0)
 __CPROVER_assigns(self->_executor, caller->_executor)
 /* resumed inline by the awaited object: the coroutine continues on (and from now on owns) the executor that object completed on */
 __CPROVER_ensures(self->_executor == OLD(caller->_executor) && caller->_executor == 0)
 {''' + ci + '''}
-unsigned g_impls, g_calls;
+unsigned g_impls; unsigned char g_resumed_after_impl;
 void ImplS(Core* self, Core* caller) __CPROVER_assigns(g_impls) __CPROVER_ensures(g_impls == OLD(g_impls) + 1);
-void CallS(Core* self) __CPROVER_requires(g_impls == 1) __CPROVER_assigns(g_calls) __CPROVER_ensures(g_calls == OLD(g_calls) + 1);
-Core* HereF(Core* self, Core* caller) __CPROVER_requires(g_impls == 0 && g_calls == 0) __CPROVER_assigns(g_impls, g_calls)
-/* V_Here for a coroutine: takes over the executor, then resumes the coroutine exactly once; nothing is handed back to the caller's Loop */
-__CPROVER_ensures(g_impls == 1 && g_calls == 1 && RET == 0)
-{''' + ch.replace('Impl(self, caller)', 'ImplS(self, caller)').replace('Call(self)', 'CallS(self)') + '''}
+/* Call() of this class (job PromiseType.Call): resumes exactly this coroutine, once */
+void CallS(Core* self) __CPROVER_assigns(g_resumes, g_resumed, g_resumed_after_impl) __CPROVER_ensures(g_resumes == OLD(g_resumes) + 1 && g_resumed == self && g_resumed_after_impl == (g_impls == 1));
+/* ... or written out: the resume itself */
+void RESUME_H(Core* h) __CPROVER_requires(h != 0) __CPROVER_assigns(g_resumes, g_resumed, g_resumed_after_impl) __CPROVER_ensures(g_resumes == OLD(g_resumes) + 1 && g_resumed == h && g_resumed_after_impl == (g_impls == 1));
+Core* HereF(Core* self, Core* caller) __CPROVER_requires(self != 0 && g_impls == 0 && g_resumes == 0) __CPROVER_assigns(g_impls, g_resumes, g_resumed, g_resumed_after_impl)
+/* V_Here for a coroutine: takes over the executor, THEN resumes exactly this coroutine exactly once; nothing is handed back to the caller's Loop */
+__CPROVER_ensures(g_impls == 1 && g_resumes == 1 && g_resumed == self && g_resumed_after_impl && RET == 0)
+{''' + ch.replace('Impl(self, caller)', 'ImplS(self, caller)').replace('Call(self)', 'CallS(self)').replace('RESUME(', 'RESUME_H(') + '''}
 void h1(void) { pt_reset(); Core* a; Core* b; Impl(a, b); VF_CANARY("end"); }
-void h2(void) { pt_reset(); g_impls = g_calls = 0; Core* a; Core* b; HereF(a, b); VF_CANARY("end"); }
+void h2(void) { pt_reset(); g_impls = 0; Core* a; Core* b; __CPROVER_assume(a != 0); HereF(a, b); VF_CANARY("end"); }
 '''
     job('PromiseType.Impl', b_impl, src, 'Impl', [], entry='h1')
-    job('PromiseType.Here', b_here, src, 'HereF', ['ImplS', 'CallS'], entry='h2')
+    job('PromiseType.Here', b_here, src, 'HereF', ['ImplS', 'CallS', 'RESUME_H', 'Curr'], entry='h2')
     # frame destruction and final suspend
     b_del = find_body(repo, F_PT, r'void\s+PromiseTypeDeleter<Lazy,\s*Shared>::Delete\s*\(', 'PromiseTypeDeleter::Delete')
     c = Rewriter('PromiseTypeDeleter::Delete', pre=[(r'auto\s*&\s*promise\s*=\s*DownCast<PromiseType<V,\s*E,\s*Lazy,\s*Shared>>\(core\)\s*;', 'Core* promise = core;', 0), (r'auto\s+handle\s*=\s*promise\.Handle\(\)\s*;', 'Core* handle = promise;', 0),
